@@ -1,5 +1,9 @@
-"""C07 — executor-protocol property: Lean theorems over M1 + E1 (real code under the deterministic scheduler,
-in lock-step with M1, judged by the oracles of harness/simengine/monitors.py)."""
-from ..e1 import E1Part
+"""C07 — idle-time-out exits are invisible: Lean theorems over M1 + E1 (plain executor in lock-step with M1; reusable
+executor with resizes racing with time-outs)."""
+from ..composite import Composite
+from ..e1 import E1Part, ReusePart
 
-PROP = E1Part("C07", [("timeouts",3),("leak",1),("graceful",1),("respawn",2)], ["C07","C03","C01"], ["LokyModel.Props.C07"], quick=1400, thorough=40000, starve=0)
+E1 = E1Part("C07", [("timeouts", 3), ("leak", 1), ("graceful", 1), ("respawn", 2)], ["C07", "C03", "C01"],
+            ["LokyModel.Props.C07"], quick=1200, thorough=40000)
+REUSE = ReusePart("C07", ["C07", "C03", "C01", "C10"], [], quick=500, thorough=15000, families=[("reuse", 1)])
+PROP = Composite("C07", [E1, REUSE])
